@@ -242,10 +242,13 @@ func c11MidFlush(m *Machine, s0 int) {
 // every writer behaviour. Summing the per-call equation nn = plain(s1)-plain(s0)
 // over consecutive calls telescopes to "sum of returned counts = len(msg)"
 // once everything is written.
-func VerifC11FlushStep() {
+func VerifC11FlushStep()     { c11FlushStep(4) }
+func VerifC11FlushStepDeep() { c11FlushStep(7) }
+
+func c11FlushStep(np int) {
 	c11Config()
 	m, key, _, n := c11Sender()
-	p := vChoice("p", 7)
+	p := vChoice("p", np)
 	msg := vBytes("msg", p)
 	err := m.WriteMessage(msg)
 	vAssert(err == nil, "WriteMessage accepts a message when nothing is pending")
